@@ -525,17 +525,6 @@ def rnd_items(rnd, fam, T):
 
 
 # ---------------------------------------------------------------- classification
-def _merge_own_findings(rep):
-    """known_findings.json is generated from tools/findings.d by the maintainer; until it is regenerated the fragment of
-    this property is read directly so that the check is self-contained (same matching rules, nothing is written)."""
-    frag = common.VERIF / "tools" / "findings.d" / f"{PID}.json"
-    if frag.exists():
-        have = {f["key"] for f in rep._known}
-        for f in json.loads(frag.read_text()):
-            if f.get("property") == PID and f.get("status") == "known" and f["key"] not in have:
-                rep._known.append(f)
-
-
 def shape_key(items) -> str:
     def one(it):
         v = it["v"]
@@ -549,7 +538,6 @@ def shape_key(items) -> str:
 def main(argv):
     tier = "thorough" if (argv and argv[0] == "thorough") else "quick"
     rep = Report(PID, tier)
-    _merge_own_findings(rep)
     rnd = common.rng(PID)
     rep.assumptions = [
         "generated classes have explicit __init__ signatures (int / str / class / Optional, List, Dict[str,.], Union of classes), log their keyword arguments and do not call super().__init__; **kwargs classes accept anything; factories are annotated functions returning an instance",
